@@ -670,6 +670,7 @@ class PartialClearOracle(Observer):
 
     def attach(self, w):
         self.mutated_since_clear = set()
+        self.aborted_before = False
         self.cleared_once = False
         self.reused = set()  # handles used as operands after some clear
 
@@ -696,14 +697,16 @@ class PartialClearOracle(Observer):
         w.probe("c09.tainted_backward")
         if out.status == "fail" and out.exc == "InvalidBackprop":
             w.probe("c09.invalid_backprop")
+            self.aborted_before = True
             return
         if out.status in ("unexp", "fail"):
             w.violation(
                 "C09",
                 "C09.other_exception",
                 f"step {w.nstep}: backward() on a partially cleared graph raised {out.exc} (neither InvalidBackprop nor success): {out.msg[:120]}",
-                tag=f"C09.other_exception/{out.exc}",
+                tag=f"C09.other_exception/{out.exc}" + ("/after_aborted_backward" if self.aborted_before else ""),
             )
+            self.aborted_before = True
             return
         if out.status != "ok":
             return
